@@ -24,8 +24,8 @@ KEYS = {
     "AddCapability": ("words", ["CAP_A", "CAP_B CAP_C", "\"CAP_D\""]),
     "Sysctl": ("words", ["a=1", "b=2 c=3"]),
     "PodmanArgs": ("words", ["--foo", "--bar \"b z\"", "-x"]),
-    "Environment": ("kv", ["A=1", "B=2", "A=3 C=4", "\"D=x y\""]),
-    "Label": ("kv", ["l=1", "m=2", "l=3"]),
+    "Environment": ("kv", ["A=1", "B=2", "A=3 C=4", "\"D=x y\"", "A=u=1", "A=v=2", "E=", "E==x"]),
+    "Label": ("kv", ["l=1", "m=2", "l=3", "l=a=b", "l=c=d"]),
     "Exec": ("single", ["sleep 1", "echo \"a b\""]),
 }
 
@@ -33,10 +33,10 @@ KEYS = {
 # keys of the other unit types: key -> (unit type, kind, candidate values); the base of the unit is docs.MINIMAL[type]
 OTHER = {
     "volume:User": ("single", ["5", "1000", "x"]), "volume:Group": ("single", ["7", "100"]), "volume:Device": ("single", ["/dev/sda1", "tmpfs"]),
-    "volume:Driver": ("single", ["local", "nfs"]), "volume:Copy": ("bool", ["yes", "no"]), "volume:Label": ("kv", ["l=1", "m=2", "l=3"]),
+    "volume:Driver": ("single", ["local", "nfs"]), "volume:Copy": ("bool", ["yes", "no"]), "volume:Label": ("kv", ["l=1", "m=2", "l=3", "l=a=b", "l=c=d"]),
     "volume:VolumeName": ("single", ["v1", "v2"]),
     "network:Subnet": ("list", ["10.0.0.0/24", "10.1.0.0/24"]), "network:Driver": ("single", ["bridge", "macvlan"]), "network:Internal": ("bool", ["yes", "no"]),
-    "network:Label": ("kv", ["l=1", "m=2", "l=3"]), "network:Options": ("kv", ["mtu=1500", "x=y", "mtu=9000"]), "network:DNS": ("list", ["1.1.1.1", "8.8.8.8"]),
+    "network:Label": ("kv", ["l=1", "m=2", "l=3"]), "network:Options": ("kv", ["mtu=1500", "x=y", "mtu=9000", "x=p=1", "x=q=2"]), "network:DNS": ("list", ["1.1.1.1", "8.8.8.8"]),
     "pod:PodName": ("single", ["p1", "p2"]), "pod:PublishPort": ("list", ["80:80", "443"]), "pod:Network": ("list", ["host", "bridge"]), "pod:DNS": ("list", ["1.1.1.1", "8.8.8.8"]),
     "kube:ConfigMap": ("words", ["/a.yml", "/b.yml /c.yml"]), "kube:PublishPort": ("list", ["80:80", "443"]), "kube:LogDriver": ("single", ["journald", "none"]),
     "kube:ExitCodePropagation": ("single", ["all", "any"]), "kube:KubeDownForce": ("bool", ["yes", "no"]),
@@ -120,7 +120,7 @@ def lookup_level(ctx):
     rng = ctx.rng
     cases, hists = [], []
     for _ in range(ctx.volume(4000, 60000)):
-        vals = ["a", "b c", "\"q r\"", "k=v", "k=w x=y", "", "", "yes", "no", "1"]
+        vals = ["a", "b c", "\"q r\"", "k=v", "k=w x=y", "", "", "yes", "no", "1", "k=a=1", "k=b=2 x==", "=v", "k="]
         hist = [rng.choice(vals) for _ in range(rng.randint(0, 6))]
         other = [("Other", rng.choice(vals)) for _ in range(rng.randint(0, 2))]
         lines, text = [("K", v) for v in hist], ""
@@ -161,6 +161,26 @@ def lookup_level(ctx):
             want = "OK\tSOME\t" + hx(hist[-1]) if hist and hist[-1] != "" else "OK\tNONE"
             if a != want:
                 ctx.failures.append({"op": "lookup", "history": hist, "text_hex": hx(text), "what": "lookup_last_value %s, last assignment %r" % (a, hist[-1:]), "class": None})
+    # name=value keys: the last value per name, the name ending at the FIRST '=' of the word (independent reading; words by Spec.sd_split)
+    kvs = [(hist, text, a) for (hist, kind, text), a in zip(hists, impl) if kind == "keyval"]
+    flat = [v for hist, _, _ in kvs for v in py_effective(hist)]
+    split = dict(zip(flat, vlib.sd_split_many([v.encode() for v in flat]))) if flat else {}
+    for hist, text, a in kvs:
+        d = {}
+        ok = True
+        for v in py_effective(hist):
+            ws = split.get(v)
+            if ws is None:
+                ok = False; break
+            for w in ws:
+                if "=" in w:
+                    n, _, val = w.partition("=")
+                    d[n] = val
+        if not ok:
+            continue
+        want = "\t".join(["OK"] + [x for n in sorted(d) for x in (hx(n), hx(d[n]))])
+        if a != want:
+            ctx.failures.append({"op": "lookup", "history": hist, "text_hex": hx(text), "what": "lookup_all_key_val %s, rule (last value per name) says %s" % (a, sorted(d.items())), "class": None})
     ctx.oblig("correspondence: model look-ups (all kinds) = implementation on every generated history", mism == 0, "%d mismatches" % mism)
 
 
@@ -180,6 +200,14 @@ def command_level(ctx):
         hist = gen_history(rng, key)
         main, drops = spread(rng, key, hist)
         eff = effective_history(KEYS[key][0], hist)
+        if KEYS[key][0] == "kv" and eff:
+            # name=value keys keep the last value per name: the reference unit spells exactly those words, one assignment each
+            d = {}
+            for ws in vlib.sd_split_many([v.encode() for v in eff]):
+                for w in ws or []:
+                    if "=" in w:
+                        d[w.partition("=")[0]] = w
+            eff = ['"%s"' % w if (" " in w or w.endswith("=")) else w for w in d.values()]
         typ, sec, base, k = unit_of(key)
         ref = "[%s]\n%s" % (sec, base) + "".join("%s=%s\n" % (k, v) for v in eff)
         work.append((key, hist, main, drops, ref))
